@@ -133,6 +133,10 @@ func TestReplay(t *testing.T) {
 		t.Fatal(err)
 	}
 	x := string(buf)
+	if seed, ok := orc.RenameSeedOf(x); ok {
+		checkRenamed(t, "Replay", strings.SplitN(x, "\n", 2)[1], seed)
+		return
+	}
 	o := orc.ParsePrintPreserves(x, orc.Opts{OwnGenerator: strings.Contains(x, "; source: own-generator")})
 	if o.V == orc.Violation && matchKnown(x, o) == "" {
 		hx.Fail(t, "Replay", "ll", x, "%s", o.Describe())
